@@ -140,7 +140,8 @@ fn call(e: usize, n: c_int, problems: &mut Vec<String>) -> Class {
     class
 }
 
-fn child(e: usize, n: c_int, warm: bool, fd: i32) -> i32 {
+fn child(e: usize, n: c_int, context: u32, fd: i32) -> i32 {
+    let warm = context == 1;
     std::panic::set_hook(Box::new(|_| {}));
     let mut problems = Vec::new();
     // context: other signals registered before
@@ -154,6 +155,11 @@ fn child(e: usize, n: c_int, warm: bool, fd: i32) -> i32 {
     {
         let w = witness.clone();
         unsafe { signal_hook_registry::register(wsig, move || { w.fetch_add(1, Ordering::SeqCst); }) }.expect("witness");
+    }
+    if context == 2 {
+        // the very same number was registered through an unchecked entry point before (possible for ILL/FPE/SEGV
+        // and every ordinary signal): the checked entry points must still refuse the forbidden ones
+        let _ = unsafe { signal_hook_registry::register_signal_unchecked(n, || ()) };
     }
     if e == 14 {
         // this entry point builds an instance on SIGWINCH first: let the library own that signal already
@@ -202,6 +208,7 @@ fn child(e: usize, n: c_int, warm: bool, fd: i32) -> i32 {
 pub fn main(args: &[String]) -> i32 {
     let seed = arg_u64(args, "--seed", 1);
     let full = crate::has_flag(args, "--full");
+    let only_pipe = crate::has_flag(args, "--only-pipe");
     let t0 = crate::now_ms();
     let mut numbers: Vec<c_int> = (-2..=130).collect();
     numbers.extend([i32::MIN, i32::MIN + 1, -129, 255, 256, 65536, i32::MAX]);
@@ -213,15 +220,25 @@ pub fn main(args: &[String]) -> i32 {
     let mut inconclusive = None;
     let forbidden = signal_hook::consts::FORBIDDEN;
     'all: for (e, ename) in ENTRIES.iter().enumerate() {
+        if only_pipe && e != 9 && e != 10 && e != 15 {
+            continue;
+        }
         for (ni, n) in numbers.iter().cloned().enumerate() {
-            for warm in [false, true] {
-                // quick: all entry points x all forbidden, a seeded third of the rest
-                if !full && !forbidden.contains(&n) && (ni as u64 + e as u64 + seed + warm as u64) % 3 != 0 {
+            if only_pipe && !(forbidden.contains(&n) || [0, -1, 32, 65, 70, 128, 10].contains(&n)) {
+                continue;
+            }
+            for context in 0..3u32 {
+                let warm = context == 1;
+                if context == 2 && !(kernel_accepts(n) || n == libc::SIGILL || n == libc::SIGFPE || n == libc::SIGSEGV) {
                     continue;
                 }
-                let res = fork::probe(20_000, false, move |fd| child(e, n, warm, fd));
+                // quick: all entry points x all forbidden, a seeded third of the rest
+                if !full && !forbidden.contains(&n) && (ni as u64 + e as u64 + seed + context as u64) % 3 != 0 {
+                    continue;
+                }
+                let res = fork::probe(20_000, false, move |fd| child(e, n, context, fd));
                 probes += 1;
-                let label = format!("{}({}) {}", ename, n, if warm { "after 5 other registrations" } else { "in a fresh process" });
+                let label = format!("{}({}) {}", ename, n, ["in a fresh process", "after 5 other registrations", "after an unchecked registration of the same number"][context as usize]);
                 let want = expected(e, n);
                 match &res.end {
                     End::Exit(0) if res.out.contains("DONE") => {}
